@@ -55,6 +55,9 @@ def zid_insertion_problem(a: str, b: str) -> tuple[Optional[str], dict]:
     """Is line `b` line `a` with a ZID inserted after the kind/priority prefix
     (taking the place of a leading YYYY-MM-DD)?  -> (violated clause or None, info)"""
     info: dict[str, Any] = {}
+    if a.endswith("\r") != b.endswith("\r"):
+        return "line-ending-changed", info
+    a, b = a.rstrip("\r"), b.rstrip("\r")
     m = _ZID_TOKEN.search(b)
     if not m:
         return "changed-line-has-no-zid", info
